@@ -158,6 +158,9 @@ def chained_shapes(rng, n):
         actions = rng.choice([
             lambda: [N("hook", name="h")], lambda: [inc()], lambda: [N("hook", name="h"), inc()], lambda: [inc(), N("hook", name="h")],
             lambda: [N("appendc", var="s", e=num(65)), N("hook", name="h")], lambda: [N("hook", name="h"), N("hook", name="g")],
+            # (not droppable: a finish in front of the next statement ends the parse whatever the next byte is)
+            lambda: [N("if", branches=[(N("bin", op="==", a=N("var", name="n"), b=num(0)), [N("finish", code=None)])], orelse=None)],
+            lambda: [N("hook", name="h"), N("if", branches=[(N("bin", op="==", a=N("var", name="m"), b=num(0)), [N("finish", code=None)])], orelse=None)],
         ])
         nexts = [
             lambda: [N("case", greedy=False, clauses=[N("clause", preds=[N("lit", bs=b"b", form="s")], body=[N("assign", var="r", e=num(1))], prio=None),
